@@ -458,5 +458,9 @@ def run(ctx):
     # ---------------------------------------------------------------- C01.ARGS
     from ..rules_common import check_call_arguments
     check_call_arguments(ctx, "C01.ARGS", "C01")
+    from ..rules_common import check_effect_tables
+    check_effect_tables(ctx, "C01")
+    from ..rules_common import check_presence_tests, ARG_SCOPE
+    check_presence_tests(ctx, "C01.PRESENCE", classes=ARG_SCOPE.get("C01", []))
 
 
